@@ -294,12 +294,15 @@ def setDouble (n : JVal) (bits : UInt64) : Int × JVal :=
   | .dbl _ _ => (1, .dbl bits none)
   | _ => (0, n)
 
+/-- 2^64, the modulus of uint64_t arithmetic (a literal, so that `omega` sees through it) -/
+local notation "MOD64" => (18446744073709551616 : Int)
+
 /-- `(uint64_t)x` of an int64 -/
-def toU64 (x : Int) : Int := x % TWO64
+def toU64 (x : Int) : Int := x % MOD64
 
 /-- the magnitude of a negative increment, as the source computes it -/
 def negMag (val : Int) : Outcome Int :=
-  if numIncNegatesUnsigned then .ok ((-(toU64 val)) % TWO64)            -- -(uint64_t)val
+  if numIncNegatesUnsigned then .ok ((-(toU64 val)) % MOD64)            -- -(uint64_t)val
   else do
     let m ← ckRange INT64_MIN INT64_MAX (-val) "int_inc: -val overflows int64"
     .ok (toU64 m)
@@ -309,7 +312,7 @@ def intInc (n : JVal) (val : Int) : Outcome (Int × JVal) :=
   match n with
   | .int true c =>
     if val > 0 ∧ c > INT64_MAX - val then
-      .ok (1, .int false ((toU64 c + toU64 val) % TWO64))
+      .ok (1, .int false ((toU64 c + toU64 val) % MOD64))
     else if val < 0 ∧ c < INT64_MIN - val then .ok (1, .int true INT64_MIN)
     else do
       let s ← ckRange INT64_MIN INT64_MAX (c + val) "int_inc: c_int64 += val overflows"
@@ -322,8 +325,8 @@ def intInc (n : JVal) (val : Int) : Outcome (Int × JVal) :=
         let cu ← ckRange INT64_MIN INT64_MAX u "int_inc: (int64_t)c_uint64"
         let s ← ckRange INT64_MIN INT64_MAX (cu + val) "int_inc: (int64_t)c_uint64 + val overflows"
         .ok (1, .int true s)
-      else .ok (1, .int false ((u - m) % TWO64))
-    else .ok (1, .int false ((u + toU64 val) % TWO64))
+      else .ok (1, .int false ((u - m) % MOD64))
+    else .ok (1, .int false ((u + toU64 val) % MOD64))
   | _ => .ok (0, n)
 
 /-- the number an int node holds -/
